@@ -1,5 +1,5 @@
 """C04 — EnumIter yields every enabled variant exactly once, in declaration order."""
-from vlib.defs import Item, Variant, Field, DISABLED
+from vlib.defs import Item, Variant, Field, DISABLED, ser, msg, props
 from vlib.run import Corpus
 from vlib import structs as T
 from vlib import render as RR
@@ -28,7 +28,11 @@ def mkv(name, kind, dis, gen=False):
     else:
         v = Variant(name, "named", [Field("usize", "a"), Field("String", "b")])
     if dis:
-        v.metas = [DISABLED]
+        # `disabled` alone, after / before other items of the same attribute, or in an attribute of its own
+        k = sum(map(ord, name)) % 4
+        v.metas = [[DISABLED], [ser("x-" + name), DISABLED], [DISABLED, msg("m")], [props([("k", ("i", 1))]), DISABLED, ser("y-" + name)]][k]
+        if k == 3:
+            v.groups = [1, 1]
     return v
 
 
@@ -57,6 +61,8 @@ def build_corpus(tier, rng):
         c.add_q(k, "adapt", ["count"], note="itercount")
         c.add_q(k, "iterops", ["0:n"] * (n + 2), note="drain-front")
         c.add_q(k, "iterops", ["0:b"] * (n + 2), note="drain-back")
+        c.add_q(k, "iterops", ["0:n", "0:u0", "0:u1", "0:b", "0:u0", "0:n", "0:u2", "0:l"], note="mixed-back")
+        c.add_q(k, "iterops", ["0:b", "0:u1", "0:u0", "0:n", "0:l", "0:u0", "0:u0"], note="mixed-back")
     return c
 
 
